@@ -1,3 +1,4 @@
+pub mod clsabort;
 pub mod clsgrp;
 pub mod factor;
 pub mod lanczos;
